@@ -236,9 +236,17 @@ class MsgDirective(ExtractableI18NDirective):
                                                          gettext_functions,
                                                          search_text=search_text):
                     yield message
+            elif previous[0] is EXPR:
+                for message in translator._extract_code(previous,
+                                                        gettext_functions):
+                    yield message
             msgbuf.append(*previous)
             previous = event
         if not strip:
+            if previous[0] is EXPR:
+                for message in translator._extract_code(previous,
+                                                        gettext_functions):
+                    yield message
             msgbuf.append(*previous)
 
         yield contextify(
@@ -298,10 +306,18 @@ class ChooseBranchDirective(I18NDirective):
                                                          gettext_functions,
                                                          search_text=search_text):
                     yield message
+            elif previous[0] is EXPR:
+                for message in translator._extract_code(previous,
+                                                        gettext_functions):
+                    yield message
             msgbuf.append(*previous)
             previous = event
 
         if previous[0] is not END:
+            if previous[0] is EXPR:
+                for message in translator._extract_code(previous,
+                                                        gettext_functions):
+                    yield message
             msgbuf.append(*previous)
 
 
@@ -513,11 +529,19 @@ class ChooseDirective(ExtractableI18NDirective):
                                                              gettext_functions,
                                                              search_text):
                         yield message
+                elif previous[0] is EXPR:
+                    for message in translator._extract_code(previous,
+                                                            gettext_functions):
+                        yield message
                 singular_msgbuf.append(*previous)
                 plural_msgbuf.append(*previous)
             previous = event
 
         if not strip:
+            if previous[0] is EXPR:
+                for message in translator._extract_code(previous,
+                                                        gettext_functions):
+                    yield message
             singular_msgbuf.append(*previous)
             plural_msgbuf.append(*previous)
 
@@ -1068,6 +1092,11 @@ class Translator(DirectiveFactory):
                 for message in self.extract(_ensure(value), gettext_functions,
                                             search_text=False):
                     yield message
+
+    def _extract_code(self, event, gettext_functions):
+        for funcname, strings in extract_from_code(event[1],
+                                                   gettext_functions):
+            yield event[2][1], funcname, strings, []
 
 
 class MessageBuffer(object):
